@@ -1,4 +1,4 @@
-import EaselModel.Core.Proto
-/-! Line-protocol driver for the C07 model (stub: answers bad-op until the model lands). -/
-open EaselModel.Proto
-def main : IO Unit := runDriver () (fun s _ => (s, "bad-op"))
+import EaselModel.Sqio.DriverLogic
+/-! Line-protocol driver for the C07 model: the shared sequence-file model (EaselModel/Sqio), ops select the behaviour. -/
+open EaselModel.Proto EaselModel.Sqio
+def main : IO Unit := runDriver ({} : DS) step
